@@ -1,6 +1,7 @@
 package main
 
 import (
+	. "digverif/vt"
 	"errors"
 	"fmt"
 	"runtime"
@@ -56,6 +57,7 @@ type Monitor struct {
 	pend       *pendingCall
 	inv        *invokeState
 	cbPending  map[int]*ExecRec
+	invInfos   map[int]*invInfo
 	maxFrames  int
 	checkDepth bool
 	pcs        [8192]uintptr
@@ -63,7 +65,7 @@ type Monitor struct {
 
 func newMonitor(w *World) *Monitor {
 	m := &Monitor{w: w, role: map[int]interface{}{}, okExecs: map[int]int{}, seen: map[string]bool{},
-		stats: map[string]int{}, situ: map[string]int{}, cbPending: map[int]*ExecRec{}}
+		stats: map[string]int{}, situ: map[string]int{}, cbPending: map[int]*ExecRec{}, invInfos: map[int]*invInfo{}}
 	m.parent = []int{-1}
 	m.deferV = w.h.Opts.Defer
 	m.resetMemo()
@@ -769,6 +771,22 @@ func (m *Monitor) afterInvoke(i int, op *Op, f *Fn, rec *OpRec) {
 		}
 		return
 	}
+	{
+		ii := &invInfo{f: f, s: op.Scope, verdict: cl, failedFn: -1, av: st.av, cyc: st.cycAll || st.cycReq}
+		for _, e := range append(append([]*ExecRec(nil), st.failed...), st.panicked...) {
+			if e.Fn == f.ID {
+				ii.selfFail = true
+			} else if ii.failedFn < 0 {
+				ii.failedFn = e.Fn
+			}
+		}
+		for id := range st.may {
+			if _, ok := m.role[id].(*Dec); ok {
+				ii.hadDec = true
+			}
+		}
+		m.invInfos[i] = ii
+	}
 	rcv := m.w.h.Opts.Recover
 	// panics
 	if rec.Panic != nil {
@@ -930,7 +948,35 @@ func expectedInfo(f *Fn, as []int, withOutputs bool) []string {
 	return out
 }
 
+// ids observed for declared pool functions, across all containers of this process
+var (
+	poolIDOf  = map[int]int64{}
+	poolOfID  = map[int64]int{}
+	dynIDSeen = map[int64]bool{}
+)
+
 func (m *Monitor) checkInfo(op *Op, f *Fn, rec *OpRec) {
+	if op.Kind != OpInvoke {
+		if f.Pool > 0 {
+			idx := f.Pool - 1
+			m.stats["info.ids-checked"]++
+			if prev, ok := poolIDOf[idx]; ok && prev != rec.InfoID {
+				m.violate("C18", "C18.id-unstable", "function %s got ID %d, earlier %d", poolName(idx), rec.InfoID, prev)
+			}
+			if other, ok := poolOfID[rec.InfoID]; ok && other != idx {
+				m.violate("C18", "C18.id-collision", "functions %s and %s share ID %d", poolName(idx), poolName(other), rec.InfoID)
+			}
+			if dynIDSeen[rec.InfoID] {
+				m.violate("C18", "C18.id-collision", "function %s shares ID %d with a reflect-made function", poolName(idx), rec.InfoID)
+			}
+			poolIDOf[idx], poolOfID[rec.InfoID] = rec.InfoID, idx
+		} else {
+			dynIDSeen[rec.InfoID] = true
+			if _, ok := poolOfID[rec.InfoID]; ok {
+				m.violate("C18", "C18.id-collision", "a reflect-made function shares ID %d with %s", rec.InfoID, poolName(poolOfID[rec.InfoID]))
+			}
+		}
+	}
 	want := expectedInfo(f, op.As, op.Kind != OpInvoke)
 	m.stats["info.checked"]++
 	m.stats["info.entries"] += len(want)
